@@ -397,3 +397,61 @@ Example C06_example_cli_writes_minus_one_iff_none :
   SrcCli.src_cli_select_next_plate Z Z Z Z (lib None) (fun s => s) a = Ok [([103], -1)] /\
   SrcCli.src_cli_select_next_plate Z Z Z Z (lib (Some 0)) (fun s => s) a = Ok [([103], 0)].
 Proof. vm_compute. split; reflexivity. Qed.
+
+(* ---- source-translation links: ChunkedScoresHolder.__init__ / get_score / save_h5 / load_h5 (Generated/SrcHolderIO.v,
+   configurations C06_HOLDER_* of harness/src_functions.py).  The Python object is the record [pyholder] of its four
+   attributes, a model holder h is represented by [holder_obj h]; the translated save_h5 denotes the raw HDF5 content
+   [shraw] it writes (datasets and attributes by name), load_h5 reads one; [shraw_close] is the representation map to the
+   model's file (slots, current_index).  All in the last part of Model/Scores.v. ---- *)
+From Batchie Require Import Generated.SrcHolderIO Proofs.C06SourceIO.
+
+(* __init__ on any fresh instance: the holder of `size` zero slots, ValueError for a negative size *)
+Theorem C06_model_is_source_init : forall (self : pyholder) (size : Z),
+  src_holder_init self size = if size <? 0 then Err 1 else Ok (holder_obj (holder_new (Z.to_nat size))).
+Proof. exact src_holder_init_is_model. Qed.
+Print Assumptions C06_model_is_source_init.
+
+(* get_score: the score of the ONLY slot carrying that plate id; no such slot or several: ValueError *)
+Theorem C06_model_is_source_get_score : forall (h : holder) (pid : Z),
+  src_holder_get_score (holder_obj h) pid = h_get_score h pid.
+Proof. exact src_holder_get_score_is_model. Qed.
+Print Assumptions C06_model_is_source_get_score.
+
+(* what the translated save_h5 wrote, read back by name, is the model's file *)
+Theorem C06_model_is_source_save_h5 : forall h : holder,
+  (dor w <- src_holder_save_h5 (holder_obj h); shraw_close w) = Ok (h_save h).
+Proof. exact src_holder_save_h5_is_model. Qed.
+Print Assumptions C06_model_is_source_save_h5.
+
+(* on every raw file that represents a model file f, the translated load_h5 returns the object of the model's h_load f *)
+Theorem C06_model_is_source_load_h5 : forall (w : shraw) (f : list slot * nat),
+  shraw_close w = Ok f -> src_holder_load_h5 w = Ok (holder_obj (h_load f)).
+Proof. exact src_holder_load_h5_is_model. Qed.
+Print Assumptions C06_model_is_source_load_h5.
+
+(* hence C06_save_load is a theorem about the translated source: the object the translated load_h5 makes of what the
+   translated save_h5 wrote has the saved score array, plate-id array and current_index; its size is len(scores) *)
+Theorem C06_source_save_load : forall h : holder,
+  exists o, (dor w <- src_holder_save_h5 (holder_obj h); src_holder_load_h5 w) = Ok o
+    /\ ph_scores o = ph_scores (holder_obj h) /\ ph_pids o = ph_pids (holder_obj h) /\ ph_cur o = ph_cur (holder_obj h)
+    /\ ph_size o = Z.of_nat (length (ph_scores (holder_obj h))).
+Proof. exact src_holder_round_trip. Qed.
+Print Assumptions C06_source_save_load.
+
+(* ... and get_score answers the same before and after the round trip *)
+Theorem C06_source_get_score_after_reload : forall (h : holder) (pid : Z),
+  (dor w <- src_holder_save_h5 (holder_obj h); dor o <- src_holder_load_h5 w; src_holder_get_score o pid) = h_get_score h pid.
+Proof. exact src_holder_get_score_after_reload. Qed.
+Print Assumptions C06_source_get_score_after_reload.
+
+(* not vacuous: a holder of declared size 3 with two filled slots (ids 5 and 7) and one unfilled slot (id 0) *)
+Example C06_source_holder_io_example :
+  let h := mkholder 3 [(5, 11); (7, -2); (0, 0)] 2 in
+  (dor w <- src_holder_save_h5 (holder_obj h); src_holder_load_h5 w) = Ok (mkpyholder 3 [11; -2; 0] [5; 7; 0] 2)
+  /\ src_holder_get_score (holder_obj h) 7 = Ok (-2)
+  /\ src_holder_get_score (holder_obj h) 6 = Err 8
+  /\ src_holder_get_score (holder_obj (mkholder 2 [(5, 1); (5, 2)] 2)) 5 = Err 8
+  /\ src_holder_init ph_blank 2 = Ok (mkpyholder 2 [0; 0] [0; 0] 0)
+  /\ src_holder_init ph_blank (-1) = Err 1
+  /\ src_holder_load_h5 shraw_empty = Err 30.
+Proof. vm_compute. repeat split; reflexivity. Qed.
